@@ -66,7 +66,17 @@ func srDump(sr *proj.SR) string {
 		ax = "-"
 	}
 	b.WriteString(" " + ax)
-	b.WriteString(" " + b2s(sr.DatumCode == "WGS84"))
+	// the datum code itself (DATA): the model decides what NewTransform's checkNotWGS makes of it
+	code := strings.Map(func(r rune) rune {
+		if r <= ' ' {
+			return '~'
+		}
+		return r
+	}, sr.DatumCode)
+	if code == "" {
+		code = "-"
+	}
+	b.WriteString(" " + code)
 	d := v.FieldByName("datum")
 	if d.IsNil() {
 		b.WriteString(" nodatum")
@@ -136,13 +146,18 @@ func impl() {
 				res = implClosures(p)
 				return
 			}
-			if kind != "rt" && kind != "cc" {
+			if kind != "rt" && kind != "cc" && kind != "tw" {
 				res = "badline"
 				return
 			}
 			p.Next() // class
 			a := strings.ReplaceAll(p.Next(), "~", " ")
 			b := strings.ReplaceAll(p.Next(), "~", " ")
+			var a2, b2 string
+			if kind == "tw" {
+				a2 = strings.ReplaceAll(p.Next(), "~", " ")
+				b2 = strings.ReplaceAll(p.Next(), "~", " ")
+			}
 			n := p.Int()
 			A, err := proj.Parse(a)
 			if err != nil {
@@ -186,12 +201,41 @@ func impl() {
 				return math.Float64bits(x1) == math.Float64bits(x2) && math.Float64bits(y1) == math.Float64bits(y2) && (e1 == nil) == (e2 == nil)
 			}
 			nilAB, nilBA, hist := false, false, false
+			// tw lines: the twin pair (the lower-case wgs84 side written as +datum=WGS84) on its own
+			// reused transformer pair; K = positions on which any of the three answers differs bit for bit
+			var twAB, twBA proj.Transformer
+			var twErr error
+			var twA, twB *proj.SR
+			twBad, twFirst := 0, "-"
+			if kind == "tw" {
+				if twA, twErr = proj.Parse(a2); twErr == nil {
+					if twB, twErr = proj.Parse(b2); twErr == nil {
+						UA2, _ := proj.Parse(a2)
+						UB2, _ := proj.Parse(b2)
+						if twAB, twErr = UA2.NewTransform(UB2); twErr == nil {
+							twBA, twErr = UB2.NewTransform(UA2)
+						}
+					}
+				}
+			}
 			var rs strings.Builder
 			for i := 0; i < n; i++ {
 				lon, lat := p.F(), p.F()
 				qx, qy, e1, n1 := call(tAB, errAB, lon, lat)
 				px, py, e2, n2 := call(tBA, errBA, qx, qy)
 				rx, ry, e3, _ := call(tAB, errAB, px, py)
+				if kind == "tw" && twErr == nil {
+					tqx, tqy, t1, _ := call(twAB, nil, lon, lat)
+					tpx, tpy, t2, _ := call(twBA, nil, tqx, tqy)
+					trx, try, t3, _ := call(twAB, nil, tpx, tpy)
+					if !same(qx, qy, e1, tqx, tqy, t1) || !same(px, py, e2, tpx, tpy, t2) || !same(rx, ry, e3, trx, try, t3) {
+						if twBad == 0 {
+							twFirst = fmt.Sprintf("position-%d-(%s,%s)-q=(%s,%s)-twin-q=(%s,%s)-p2=(%s,%s)-twin-p2=(%s,%s)", i, g(lon), g(lat),
+								g(qx), g(qy), g(tqx), g(tqy), g(px), g(py), g(tpx), g(tpy))
+						}
+						twBad++
+					}
+				}
 				fqx, fqy, f1, _ := once(a, b, lon, lat)
 				fpx, fpy, f2, _ := once(b, a, qx, qy)
 				frx, fry, f3, _ := once(a, b, px, py)
@@ -205,6 +249,13 @@ func impl() {
 			fmt.Fprintf(&sb, " T %s %s H %s R%s", b2s(nilAB), b2s(nilBA), b2s(hist), rs.String())
 			if kind == "cc" {
 				sb.WriteString(concurrent(p, n, tAB, tBA))
+			}
+			if kind == "tw" {
+				if twErr != nil {
+					sb.WriteString(" W twinerr " + errTok(twErr))
+				} else {
+					fmt.Fprintf(&sb, " W A %s B %s K %d %s", srDump(twA), srDump(twB), twBad, twFirst)
+				}
 			}
 			res = sb.String()
 		})
@@ -918,6 +969,7 @@ func gen(seed uint64, tier string) {
 			fmt.Fprintln(out)
 		}
 	}
+	genTwins(out, r, tier)
 	names := []string{"longlat", "merc", "lcc", "aea", "eqdc", "tmerc", "utm", "krovak"}
 	for _, name := range names {
 		for i := 0; i < nParam; i++ {
